@@ -453,9 +453,20 @@ extern (*analyticFieldEngine).partitionKey
   props C14
   option pure
 
+pure github.com/rulego/streamsql/types.AnalyticSelfTokenN
+
+extern hasStarArg
+  props C14
+  option pure
+
+extern literalValue
+  props C14
+  option pure
+
 extern (*analyticFieldEngine).applyCall
   props C14
   modifies *
+  ensures the-engines-own-bookkeeping-is-not-touched: fe.lastResults == old(fe.lastResults) && mapUnchanged(fe.lastResults) && fe.whenCond == old(fe.whenCond) && fe.af == old(fe.af)
 
 extern (*analyticFieldEngine).evaluateMultiColumn
   props C14
@@ -464,9 +475,11 @@ extern (*analyticFieldEngine).evaluateMultiColumn
 extern (*analyticFieldEngine).evalWrapper
   props C14
   modifies *
+  ensures the-engines-own-bookkeeping-is-not-touched: fe.lastResults == old(fe.lastResults) && mapUnchanged(fe.lastResults) && fe.whenCond == old(fe.whenCond) && fe.af == old(fe.af)
 
 func (*analyticFieldEngine).evaluate
   props C14
+  requires fe != nil && fe.lastResults != nil
   modifies *
   observe pk := partitionKey
   observe w := Evaluate
@@ -474,4 +487,7 @@ func (*analyticFieldEngine).evaluate
   before getStateLocked state-is-looked-up-under-this-rows-own-partition-key: $arg1 == $pk
   before getStateLocked rows-failing-when-do-not-advance-the-state: fe.whenCond == nil || $w
   before applyCall the-function-is-applied-to-this-row-on-a-state-of-this-partition: $arg2 == row && exists(j, 0, len(calls), $arg4 == states[j] && $arg3 == calls[j])
+  ensures rows-passing-when-leave-their-result-as-the-partitions-last-result: !old(fe.af.MultiColumn) && (old(fe.whenCond) == nil || $w) ==> dom(fe.lastResults, $pk) && fe.lastResults[$pk] == result
+  loop 2 invariant fe.lastResults == old(fe.lastResults) && fe.lastResults != nil && fe.af == old(fe.af) && fe.whenCond == old(fe.whenCond)
+  ensures rows-failing-when-repeat-the-partitions-last-result-or-null: !old(fe.af.MultiColumn) && old(fe.whenCond) != nil && !$w ==> result == ite(old(dom(fe.lastResults, $pk)), old(fe.lastResults[$pk]), nil)
 @*/
